@@ -1,13 +1,18 @@
-(* Properties_C01jx.v — the JSON/XML half of C01 (save then load reproduces the value), to be merged into
-   Properties_C01.v by the coordinator.  Statements only.  Level: PARTIAL — the theorems are about the adapter
-   model (JxModel.v) at the DOM level; RapidJSON / pugixml (DOM <-> text) enter as the tested, unproved assumptions
-   H_rj / H_px: a DOM the writer accepts is reproduced by the library's write + parse (for XML: up to line-end
-   normalisation, see saved_view); props/C08.py tests them on every produced document.
+(* Properties_C01jx.v — the JSON/XML half of C01 (save then load reproduces the value); compiled with Properties_C01.v
+   as one of its EXTRA_PROPERTIES.  Statements only.  Level: PARTIAL — the theorems are about the adapter model
+   (JxModel.v) at the DOM level: what rapidjson_archive.h / pugixml_archive.h build from a value and what they read
+   back from a DOM.  RapidJSON and pugixml themselves (DOM <-> text) are not modelled: that the library's write + parse
+   reproduces the DOM (for XML up to line-end normalisation, saved_view) is validated on every produced document by
+   props/C08.py; the double <-> text conversions enter the XML theorems as an explicit hypothesis (H_dtoa below).
+
+   The round-trip theorems have the form  roundtrip .. = Some r -> ..  (None = the model has no save for this type);
+   T_C01_json_roundtrip_defined / T_C01_xml_roundtrip_defined say for which types the Some exists for every well-typed
+   value (boolean predicates json_ty, xml_root_ty), and T_C01_*_roundtrip_total state the round trip without the premise.
 
    NOT PROVED: that EVERY value inside the XML defect class fails to come back (one witness per clause is proved);
-   XML round trip of non-finite doubles (observed); the load-save-load fixed point; the stream / encoding axis
-   (observed only). *)
-From BS Require Import Base UtfSpec JxJsonSpec JxXmlSpec JxModel JxProofs JxXmlRoundtrip.
+   XML round trip of non-finite doubles (observed); float and enum targets (ty_wf excludes them: correspondence only);
+   the load-save-load fixed point; the stream / encoding axis (observed only). *)
+From BS Require Import Base UtfSpec JxJsonSpec JxXmlSpec JxModel JxProofs JxXmlRoundtrip JxDefined.
 Local Open Scope N_scope.
 
 (* full strength: for every well-formed type of the universe (any nesting of vectors, maps, classes with distinct member
@@ -22,6 +27,22 @@ Theorem T_C01_json_roundtrip_adapter : forall i2d o t v,
   rt_good v r /\ (val_nonfinite v = false -> r = LoadedBack (Ok v)).
 Proof. exact json_roundtrip. Qed.
 Print Assumptions T_C01_json_roundtrip_adapter.
+
+(* when the premise holds: the model's JSON save is defined for every well-typed value of every type without an attribute
+   member at any depth (json_ty; the JSON archive has no attributes - a static_assert in C++), float and enum included;
+   a class with an attribute has none (second conjunct: ty_attr) *)
+Theorem T_C01_json_roundtrip_defined :
+  (forall i2d o t v, json_ty t = true -> has_type t v = true -> exists r, roundtrip_json i2d o t v = Some r) /\
+  (save_json ty_attr (VObj [([97], VInt 1); ([115], VStr []); ([98], VBool false); ([117], VInt 0); ([118], VInt 0); ([116], VStr [])]) = None /\
+   has_type ty_attr (VObj [([97], VInt 1); ([115], VStr []); ([98], VBool false); ([117], VInt 0); ([118], VInt 0); ([116], VStr [])]) = true).
+Proof. split; [exact roundtrip_json_defined | exact json_attr_unsupported]. Qed.
+Print Assumptions T_C01_json_roundtrip_defined.
+
+(* the round trip without the premise *)
+Theorem T_C01_json_roundtrip_total : forall i2d o t v, ty_wf t = true -> json_ty t = true -> has_type t v = true ->
+  exists r, roundtrip_json i2d o t v = Some r /\ rt_good v r /\ (val_nonfinite v = false -> r = LoadedBack (Ok v)).
+Proof. exact json_roundtrip_total. Qed.
+Print Assumptions T_C01_json_roundtrip_total.
 
 (* regression cases of the repaired finding F42 / F42c: map keys with an embedded U+0000 *)
 Example T_C01_json_roundtrip_nul_key : forall i2d,
@@ -94,6 +115,26 @@ Theorem T_C01_xml_roundtrip_adapter_outside : forall dtoa17 dtoa9 xstrtod xstrto
   forall r, roundtrip_xml dtoa17 dtoa9 xstrtod xstrtof o key t v = Some r -> r = Ok v.
 Proof. exact xml_roundtrip_outside. Qed.
 Print Assumptions T_C01_xml_roundtrip_adapter_outside.
+
+(* when the premise holds: the model's XML save is defined for every well-typed value of a sequence, map or class at the
+   root whose attribute members (at any depth) hold scalars (xml_root_ty = is_container && xml_ty); for anything else at
+   the root (a scalar, an optional) there is no save: the XML root scope serialises arrays and objects only *)
+Theorem T_C01_xml_roundtrip_defined : forall dtoa17 dtoa9,
+  (forall xstrtod xstrtof o key t v, xml_root_ty t = true -> has_type t v = true ->
+     exists r, roundtrip_xml dtoa17 dtoa9 xstrtod xstrtof o key t v = Some r) /\
+  (forall key t v, is_container t = false -> save_xml dtoa17 dtoa9 key t v = None).
+Proof. intros dtoa17 dtoa9. split; [exact (roundtrip_xml_defined dtoa17 dtoa9) | exact (save_xml_scalar_root dtoa17 dtoa9)]. Qed.
+Print Assumptions T_C01_xml_roundtrip_defined.
+
+(* the round trip without the premise (ty_wfx implies xml_ty) *)
+Theorem T_C01_xml_roundtrip_total : forall dtoa17 dtoa9 xstrtod xstrtof o,
+  (forall b, is_nonfinite b = false ->
+     xstrtod (dtoa17 b) = Some (Some b) /\ skip_blanks (dtoa17 b) = dtoa17 b /\ has_cr (dtoa17 b) = false /\ dtoa17 b <> []) ->
+  forall key t v, is_container t = true -> ty_wf t = true -> ty_wfx t = true -> has_type t v = true ->
+  xml_defect t v = false -> val_nonfinite v = false ->
+  roundtrip_xml dtoa17 dtoa9 xstrtod xstrtof o key t v = Some (Ok v).
+Proof. exact xml_roundtrip_total. Qed.
+Print Assumptions T_C01_xml_roundtrip_total.
 
 (* inside the class: one witness per clause (the value that comes back is shown) *)
 Theorem T_C01_xml_roundtrip_defect_witnesses : forall dtoa17 dtoa9 xstrtod xstrtof,
